@@ -82,7 +82,7 @@ Print Assumptions hop_inverse_exact.
    row r with successor n, except: the first microsecond of a drift row (see utc_tai_utc_boundary_refuted), its last
    microsecond, and the UTC labels `skip r n` that never existed because TAI-UTC stepped down (skips_are) *)
 Theorem utc_tai_utc : forall r n u, adjacent table r n -> rt_dom r n u ->
-  Qabs (tai2utc (utc2tai u) - u) <= 4 * ns.
+  Qabs (tai2utc (utc2tai u) - u) <= eps_rt.     (* 4 ns *)
 Proof. exact utc_tai_utc_lemma. Qed.
 Print Assumptions utc_tai_utc.
 
@@ -97,7 +97,7 @@ Print Assumptions utc_tai_utc_exact_on_leap_rows.
 (* TAI -> UTC -> TAI for every TAI instant that is the image of a UTC instant of the domain
    (this excludes exactly the TAI instants inside an inserted leap second) *)
 Theorem tai_utc_tai : forall r n u, adjacent table r n -> rt_dom r n u ->
-  Qabs (utc2tai (tai2utc (utc2tai u)) - utc2tai u) <= 8 * ns.
+  Qabs (utc2tai (tai2utc (utc2tai u)) - utc2tai u) <= 2 * eps_rt.     (* 8 ns, see eps_values *)
 Proof. exact tai_utc_tai_lemma. Qed.
 Print Assumptions tai_utc_tai.
 
@@ -129,7 +129,7 @@ Print Assumptions two_hop_path_independent_exact.
 Theorem two_hop_path_independent_partial : forall c r n u y z w, In c scales ->
   adjacent table r n -> rt_dom r n u ->
   to_scale "tai" "utc" (utc2tai u) = Some y -> to_scale "utc" c y = Some z -> to_scale "tai" c (utc2tai u) = Some w ->
-  Qabs (z - w) <= 9 * ns.
+  Qabs (z - w) <= eps_via.     (* 9 ns *)
 Proof. exact via_utc_from_tai_lemma. Qed.
 Print Assumptions two_hop_path_independent_partial.
 
@@ -138,7 +138,7 @@ Theorem roundtrip_all_pairs :
   (forall a b x y z, In a scales -> In b scales -> a <> "utc"%string -> b <> "utc"%string ->
      to_scale a b x = Some y -> to_scale b a y = Some z -> z == x) /\
   (forall b r n u y z, In b scales -> adjacent table r n -> rt_dom r n u ->
-     to_scale "utc" b u = Some y -> to_scale b "utc" y = Some z -> Qabs (z - u) <= 4 * ns).
+     to_scale "utc" b u = Some y -> to_scale b "utc" y = Some z -> Qabs (z - u) <= eps_rt).
 Proof. split; [exact roundtrip_non_utc_lemma|exact utc_via_any_lemma]. Qed.
 Print Assumptions roundtrip_all_pairs.
 
@@ -165,6 +165,9 @@ Proof. exact drift_boundary_witness. Qed.
 Print Assumptions utc_tai_utc_boundary_refuted.
 
 (* ------------------------------------------------------------------ non-vacuity *)
+Example eps_values : eps_rt * day * 1000000000 == 4 /\ eps_via * day * 1000000000 == 9 /\ us * day * 1000000 == 1.
+Proof. repeat split; vm_compute; reflexivity. Qed.
+
 (* the labels excluded at the end of each row, in seconds: 0.05 s (1961-08-01), 3.7 ns (rate change 1962-01-01),
    0.1 s (1968-02-01), nothing else *)
 Example skips_are :
@@ -178,6 +181,5 @@ Example leap_second_2016 :
   (utc2tai ((24577535 # 10) + (863995 # 864000)) - ((24577535 # 10) + (863995 # 864000))) * day == 36 /\
   (utc2tai (24577545 # 10) - (24577545 # 10)) * day == 37 /\
   (utc2tai (24388205 # 10) - (24388205 # 10)) * day == (3716594 # 1000000) /\
-  Qred (to_scale_list "utc" "tai" [24577545 # 10] = [Some (utc2tai (24577545 # 10))] -> 0) = 0 /\
   rt_dom (nth 39 table dummy_row) (nth 40 table dummy_row) ((24577535 # 10) + (863995 # 864000)).
 Proof. repeat split; vm_compute; try reflexivity; try discriminate. Qed.
